@@ -1498,7 +1498,8 @@ fn type_definition(input: Span) -> IResult<Span, Type> {
 fn accessor(input: Span) -> IResult<Span, (AccessPath, Spanned)> {
     let start = input;
     let (rest, path) = alt((
-        map(digit1, |s: Span| AccessPath::Index(s.parse().unwrap())),
+        // An index that does not fit `usize` is a parse error, not a panic.
+        map_res(digit1, |s: Span| s.parse().map(AccessPath::Index)),
         map(identifier, AccessPath::Field),
     ))(input)?;
     Ok((rest, (path, Spanned(Some(span_between(start, rest))))))
@@ -1874,7 +1875,8 @@ fn tail_call(input: Span) -> IResult<Span, Term> {
     let (after_ref, accessors_with_spans) = many0(preceded(char('.'), |i| {
         let acc_start = i;
         let (rest, accessor) = alt((
-            map(digit1, |s: Span| AccessPath::Index(s.parse().unwrap())),
+            // An index that does not fit `usize` is a parse error, not a panic.
+        map_res(digit1, |s: Span| s.parse().map(AccessPath::Index)),
             map(identifier, AccessPath::Field),
         ))(i)?;
         Ok((
